@@ -413,15 +413,24 @@ package device
 
 // controller numbers of every configured cc axis are valid data bytes (what ParseData's store-site assertions guarantee)
 //@ pred cfgRanges(c config.Config) :=
-//@   forall m int, sub string, code evdev.EvCode :: 0 <= m && m < len(c.KeyMappings) && has(c.KeyMappings[m].Analog[sub], code) ==>
-//@     c.KeyMappings[m].Analog[sub][code].CC <= 119 && c.KeyMappings[m].Analog[sub][code].CCNeg <= 119
+//@   forall m int, sub string, code evdev.EvCode :: 0 <= m && m < len(c.KeyMappings) && has(c.KeyMappings[m].Analog, sub) && has(vals(c.KeyMappings[m].Analog)[sub], code) ==>
+//@     vals(vals(c.KeyMappings[m].Analog)[sub])[code].CC <= 119 && vals(vals(c.KeyMappings[m].Analog)[sub])[code].CCNeg <= 119
+
+// every sub-handler with analog mappings has a default deadzone in the same mapping (so the deadzone lookup never falls through to panic)
+//@ pred cfgDz(c config.Config) :=
+//@   forall m int, sub string :: 0 <= m && m < len(c.KeyMappings) && has(c.KeyMappings[m].Analog, sub) ==> has(c.KeyMappings[m].DefaultDeadzone, sub)
+
+// every sub-handler that has analog mappings in some mapping owns a (non-nil) last-value map: handleABSEvent never writes a nil map
+//@ pred lavOK(c config.Config, lav map[string]map[evdev.EvCode]float64) :=
+//@   lav != nil && (forall m int, sub string :: 0 <= m && m < len(c.KeyMappings) && has(c.KeyMappings[m].Analog, sub) ==> has(lav, sub) && vals(lav)[sub] != nil)
 
 //@ func (*Device).handleABSEvent
-//@   requires wf(d) && tableOK(d) && ie != nil
-//@   cut load(.DeadzoneAtCenter) [C05,C06] old(envAbs(d, ie)) ==> !isNaN(value) && value >= -1.0 && value <= 1.0 && (!canBeNegative ==> value >= 0.0) && (canBeNegative <==> min < 0)
-//@   cut load(.Deadzones) [C05,C06] old(envAbs(d, ie)) ==> !isNaN(value) && value >= -1.0 && value <= 1.0 && (!canBeNegative ==> value >= 0.0)
-//@   cut load(.FlipAxis) [C05,C06] old(envAbs(d, ie)) ==> isNaN(value) || (value >= -1.0039 && value <= 1.0039 && (!canBeNegative ==> value >= 0.0))
-//@   cut load(.MappingType) [C05,C06] old(envAbs(d, ie)) ==> isNaN(value) || (value >= -1.0039 && value <= 1.0039 && (!canBeNegative ==> value >= -0.0039))
+//@   requires wf(d) && tableOK(d) && ie != nil && cfgRanges(d.config) && cfgDz(d.config) && lavOK(d.config, d.lastAnalogValue) && envAbs(d, ie)
+//@   ensures lavOK(d.config, d.lastAnalogValue)
+//@   cut load(.DeadzoneAtCenter) [C05,C06] !isNaN(value) && value >= -1.0 && value <= 1.0 && (!canBeNegative ==> value >= 0.0) && (canBeNegative <==> min < 0)
+//@   cut load(.Deadzones) [C05,C06] !isNaN(value) && value >= -1.0 && value <= 1.0 && (!canBeNegative ==> value >= 0.0)
+//@   cut load(.lastAnalogValue) [C05,C06] (isNaN(value) || value >= -1.0039) && (isNaN(value) || value <= 1.0039) && (isNaN(value) || canBeNegative || value >= 0.0)
+//@   cut load(.MappingType) [C05,C06] (isNaN(value) || value >= -1.0039) && (isNaN(value) || value <= 1.0039) && (isNaN(value) || canBeNegative || value >= -0.004)
 //@   ensures wf(d) && tableOK(d)
 //@   ensures [C01] old(Inv(d)) ==> Inv(d)
 //@   safety [C05]
@@ -433,11 +442,13 @@ package device
 //@ pred envEvent(d *Device, ie *input.InputEvent) :=
 //@   ie != nil && (ie.Event.Type == evdev.EV_KEY ==> (ie.Event.Value == 0 || ie.Event.Value == 1 || ie.Event.Value == 2)
 //@                  && (ie.Event.Value == 1 ==> !has(d.keyTracker, ie.Event.Code)))
+//@   && (ie.Event.Type == evdev.EV_ABS ==> envAbs(d, ie))
 
 //@ func (*Device).processEvent
 //@   requires wf(d) && tableOK(d) && event != nil
 //@   requires event.Event.Type == evdev.EV_KEY ==> event.Event.Value == 0 || event.Event.Value == 1 || event.Event.Value == 2
-//@   ensures wf(d) && tableOK(d)
+//@   requires cfgRanges(d.config) && cfgDz(d.config) && lavOK(d.config, d.lastAnalogValue) && (event.Event.Type == evdev.EV_ABS ==> envAbs(d, event))
+//@   ensures wf(d) && tableOK(d) && cfgRanges(d.config) && cfgDz(d.config) && lavOK(d.config, d.lastAnalogValue)
 //@   ensures [C01] old(Inv(d)) && old(envEvent(d, event)) ==> Inv(d)
 //@   safety [C01]
 //@   modifies d.keyTracker[_], d.actionTracker[_], d.noteTracker[_], d.activeNotesCounter[_][_], d.analogNoteTracker[_], d.lastAnalogValue[_][_], d.ccZeroed[_], d.octave, d.semitone, d.channel, d.mapping, d.ccLearning, d.multiNote, heap("[]int"), heap("*[1]int"), out, outLen, sounding, sigs, d.externalNoteTracker, heap("map[byte]map[byte]bool"), heap("map[byte]bool")
@@ -445,11 +456,11 @@ package device
 // C01, second sentence: when the event stream ends (at any moment: the loop invariant holds after every prefix),
 // every note still tracked is released before processing ends, so nothing is left sounding at the receiver.
 //@ func (*Device).ProcessEvents
-//@   requires wf(d) && tableOK(d) && Inv(d)
+//@   requires wf(d) && tableOK(d) && Inv(d) && cfgRanges(d.config) && cfgDz(d.config) && lavOK(d.config, d.lastAnalogValue)
 //@   assume env envEvent(d, recv)
 //@   ensures [C01] empty(d.noteTracker) && empty(d.analogNoteTracker)
 //@   ensures [C01] forall ch byte, n byte :: !sounding[ch][n]
-//@   loop 1 invariant [C01] wf(d) && tableOK(d) && Inv(d)
+//@   loop 1 invariant [C01,C05] wf(d) && tableOK(d) && Inv(d) && cfgRanges(d.config) && cfgDz(d.config) && lavOK(d.config, d.lastAnalogValue)
 //@   loop 2 invariant [C01] wf(d) && InvCore(d) && (forall k evdev.EvCode :: visited(k) ==> !has(d.noteTracker, k))
 //@   loop 3 invariant [C01] wf(d) && InvCore(d) && empty(d.noteTracker) && (forall s string :: visited(s) ==> !has(d.analogNoteTracker, s))
 //@   safety [C01]
@@ -477,12 +488,17 @@ package device
 //@   && modeOK(c.CollisionMode)
 
 //@ func NewDevice
-//@   requires cfgOK(cfg.Config)
+//@   requires cfgOK(cfg.Config) && cfgRanges(cfg.Config) && cfgDz(cfg.Config)
 //@   requires forall ch byte, n byte :: !sounding[ch][n]
 //@   ensures [C04] result.octave == int8(cfg.Config.Defaults.Octave) && result.semitone == int8(cfg.Config.Defaults.Semitone)
 //@   ensures [C04] int(result.channel) + 1 == cfg.Config.Defaults.Channel && result.mapping == cfg.Config.Defaults.Mapping && int(result.velocity) == cfg.Config.Defaults.Velocity
 //@   ensures [C01,C04,C05] forall p *Device :: p != nil && pointsTo(p, result) ==> wf(p) && tableOK(p) && Inv(p)
 //@   ensures [C01] empty(result.keyTracker) && empty(result.noteTracker) && empty(result.analogNoteTracker)
+//@   ensures [C05] cfgRanges(result.config) && cfgDz(result.config) && lavOK(result.config, result.lastAnalogValue)
+//@   loop 4 invariant [C05] subhandlers != nil && (forall m int, sub string :: 0 <= m && m < idx() && has(cfg.Config.KeyMappings[m].Analog, sub) ==> has(subhandlers, sub))
+//@   loop 5 invariant [C05] subhandlers != nil && (forall m int, sub string :: 0 <= m && m < idx(4) - 1 && has(cfg.Config.KeyMappings[m].Analog, sub) ==> has(subhandlers, sub))
+//@   loop 5 invariant [C05] idx(4) >= 1 && idx(4) <= len(cfg.Config.KeyMappings) && mapping.Analog == cfg.Config.KeyMappings[idx(4) - 1].Analog && (forall sub string :: visited(sub) ==> has(subhandlers, sub))
+//@   loop 6 invariant [C05] lastAnalogValue != nil && (forall sub string :: visited(sub) ==> has(lastAnalogValue, sub) && vals(lastAnalogValue)[sub] != nil)
 //@   loop 1 invariant ch <= 16 && activeNoteCounter != nil
 //@   loop 1 invariant forall c byte :: c < ch ==> has(activeNoteCounter, c) && activeNoteCounter[c] != nil && allocated(activeNoteCounter[c])
 //@   loop 1 invariant forall c1 byte, c2 byte :: c1 < ch && c2 < ch && c1 != c2 ==> activeNoteCounter[c1] != activeNoteCounter[c2]
